@@ -3195,6 +3195,8 @@ SDsetexternalfile(int32       id,       /* IN: dataset ID */
         /* need to give a length since the element does not exist yet */
         status = (int)HXcreate(handle->hdf_file, (uint16)DATA_TAG, (uint16)var->data_ref, filename, offset,
                                length);
+        if (status == FAIL)
+            var->data_ref = 0; /* no element was created: the data set still has no data */
     }
     if (status != FAIL) {
         if (var && (var->aid != 0) && (var->aid != FAIL)) {
@@ -3655,6 +3657,7 @@ SDsetcompress(int32        id,        /* IN: dataset ID */
     NC_dim    *dim;      /* to check if the dimension is unlimited */
     int32      dimindex; /* to obtain the NC_dim record */
     model_info m_info;   /* modeling information for the HCcreate() call */
+    intn       new_ref = FALSE; /* the data set got its reference number in this call */
     comp_info  c_info_x; /* local copy */
     uint32     comp_config;
     int        status    = FAIL;
@@ -3732,10 +3735,18 @@ SDsetcompress(int32        id,        /* IN: dataset ID */
         if (var->data_ref == 0) {
             HGOTO_ERROR(DFE_ARGS, FAIL);
         }
+        new_ref = TRUE;
     } /* end if */
 
     status = (int)HCcreate(handle->hdf_file, (uint16)DATA_TAG, (uint16)var->data_ref, COMP_MODEL_STDIO,
                            &m_info, comp_type, &c_info_x);
+
+    if (status == FAIL) {
+        /* no element was created: the data set must not keep (or record in its vgroup) the reference number meant for it */
+        if (new_ref)
+            var->data_ref = 0;
+        HGOTO_ERROR(DFE_CANTCOMP, FAIL);
+    }
 
     if (status != FAIL) {
         if (var && (var->aid != 0) && (var->aid != FAIL)) {
@@ -4729,6 +4740,7 @@ SDsetchunk(int32         sdsid,     /* IN: sds access id */
     int32          tBuf_size = 0;       /* conversion buffer size */
     void          *tBuf      = NULL;    /* buffer used for conversion */
     int            i;                   /* loop variable */
+    intn           new_ref   = FALSE;   /* the data set got its reference number in this call */
     int            ret_value = SUCCEED; /* return value */
 
     /* clear error stack */
@@ -4838,6 +4850,7 @@ SDsetchunk(int32         sdsid,     /* IN: sds access id */
         if (var->data_ref == 0) {
             HGOTO_ERROR(DFE_ARGS, FAIL);
         }
+        new_ref = TRUE;
     }
     else /* data ref exists, Error since can't convert existing SDS to chunked */
     {
@@ -5006,6 +5019,10 @@ SDsetchunk(int32         sdsid,     /* IN: sds access id */
     }                        /* end if */
 
 done:
+    /* no chunked element was created: the data set must not keep the reference number meant for it */
+    if (ret_value == FAIL && new_ref)
+        var->data_ref = 0;
+
     /* free fill value */
     free(fill_val);
     free(tBuf);
